@@ -11,6 +11,8 @@ CONSTANTS
   PsMaxAddrs = 64
   FailKinds = {"reset", "na", "oversize", "toomany", "garbage"}
   PushFailKinds = {"oversize", "toomany", "garbage", "reset"}
+  StallPoints = {"neg0", "neg1", "neg2", "mid"}
+  PushStallPoints = {"start", "mid"}
   RClass <- MCRClass
   Msgs <- MCMsgs
 INIT Init
